@@ -262,8 +262,8 @@ func (r *rdWorld) apply(s rdStep) string {
 	r.steps = append(r.steps, s)
 	switch s.Op {
 	case "add":
-		if _, dup := r.set[s.Name]; dup || s.Name == "" {
-			return ""
+		if _, dup := r.set[s.Name]; dup || s.Name == "" || r.mount == "mapfs" {
+			return "" // a MapFS directory handle is a snapshot taken at open: no mutations there
 		}
 		if r.m.ReadOnly {
 			if err := r.hostCreate(0, r.sub+s.Name, s.Dir, "x"); err != nil {
@@ -298,7 +298,7 @@ func (r *rdWorld) apply(s rdStep) string {
 		}
 	case "del":
 		isDir, found := r.set[s.Name]
-		if !found {
+		if !found || r.mount == "mapfs" {
 			return ""
 		}
 		if r.m.ReadOnly {
@@ -572,6 +572,8 @@ func (r *rdWorld) genStep(t *rapid.T) rdStep {
 	kind := rapid.IntRange(0, 19).Draw(t, "kind")
 	midPass := r.passCalls > 0 && !r.eof
 	switch {
+	case r.mount == "mapfs":
+		// no mutations behind a MapFS
 	case kind == 0 || (kind == 1 && !midPass):
 		var cur []string
 		for n := range r.set {
